@@ -314,6 +314,10 @@ func (cn *canoner) c1(v ssa.Value, d int) string {
 				if s, ok := paramEnv[x]; ok {
 					return s
 				}
+				// a range-over-func loop body spliced into its function: the parameters are the loop variables
+				if isRangeBody(x.Parent()) {
+					return fmt.Sprintf("iter(%s)#%d", cn.c(helperSite[x.Parent()].Call.Value, d+1), i)
+				}
 				// a private helper spliced into its caller: the parameter IS the caller's argument
 				if site := helperSite[x.Parent()]; site != nil && i < len(site.Call.Args) {
 					return canon(site.Call.Args[i])
@@ -326,7 +330,12 @@ func (cn *canoner) c1(v ssa.Value, d int) string {
 		if b := freeVarBinding(x); b != nil {
 			// captured variable: name it after what the enclosing function stored in it;
 			// parameters of the enclosing function are written $^i to keep them apart from the closure's own $i
-			up := func(v ssa.Value) string { return strings.ReplaceAll(canon(v), "$", "$^") }
+			up := func(v ssa.Value) string {
+				if isRangeBody(x.Parent()) {
+					return canon(v) // a spliced loop body is part of its function: same names
+				}
+				return strings.ReplaceAll(canon(v), "$", "$^")
+			}
 			if a, ok := b.(*ssa.Alloc); ok {
 				if sv := singleStore(a); sv != nil {
 					return up(sv)
